@@ -37,10 +37,10 @@ Section ListerBounds.
         * specialize (IH d m ls q sc' acc (d :: reqs)). cbn zeta in IH. cbn [length total_lines fold_right snd] in *.
           fold (total_lines sc') in *. lia.
       + destruct (parse mode l) as [[name info]|e]; [|cbn; rewrite !rev_length; lia].
+        destruct (dict_get k_type info) as [t|]; [|cbn; rewrite !rev_length; lia].
         destruct (is_dot_name name).
         * specialize (IH cur mode ls queue sc acc reqs). cbn zeta in IH. cbn [length]. lia.
-        * destruct (dict_get k_type info) as [t|]; [|cbn; rewrite !rev_length; lia].
-          match goal with |- context [loop f rec cur mode ls ?q sc ?a reqs] =>
+        * match goal with |- context [loop f rec cur mode ls ?q sc ?a reqs] =>
             specialize (IH cur mode ls q sc a reqs) end.
           cbn zeta in IH. cbn [length] in *. lia.
   Qed.
@@ -74,10 +74,10 @@ Section ListerBounds.
         * unfold lister_measure in *. cbn [app] in H2. rewrite weight_cons in H2. cbn [length] in *. lia.
         * cbn [length] in *. lia.
     - destruct (parse mode l) as [[name info]|e]; [|reflexivity].
+      destruct (dict_get k_type info) as [t|]; [|reflexivity].
       destruct (is_dot_name name).
       + apply IH; [| |exact Hr]; unfold lister_measure in *; cbn [length] in *; lia.
-      + destruct (dict_get k_type info) as [t|]; [|reflexivity].
-        apply IH; [| |exact Hr]; unfold lister_measure in *;
+      + apply IH; [| |exact Hr]; unfold lister_measure in *;
           destruct (text_eqb t t_dir && rec); rewrite ?app_length; cbn [length] in *; lia.
   Qed.
 
@@ -189,7 +189,7 @@ Qed.
 
 Theorem mlsx_text_exact fs name eol :
   fs <> [] -> Forall fact_ok fs -> name <> [] -> rstrip name = name -> forallb is_space eol = true ->
-  parse_mlsx_text (mlsx_facts fs ++ SP :: name ++ eol) = (posix_norm name, facts_dict fs).
+  parse_mlsx_text (mlsx_facts fs ++ SP :: name ++ eol) = Ok (posix_norm name, facts_dict fs).
 Proof.
   intros Hne Hok Hn Hr He. unfold parse_mlsx_text.
   replace (mlsx_facts fs ++ SP :: name ++ eol) with ((mlsx_facts fs ++ SP :: name) ++ eol)
@@ -202,7 +202,8 @@ Proof.
   { unfold mlsx_facts. apply no_app. split; [|apply no_cons; split; [unfold SP; congruence|apply no_nil]].
     apply no_join; [unfold SP; congruence|]. apply Forall_map. eapply Forall_impl; [|exact Hok].
     intros kv [[H1 _] [H2 _]]. apply fact_text_no; [unfold SP; congruence|assumption|assumption]. }
-  rewrite (partition_app SP _ _ Hsp). unfold mlsx_facts at 1. rewrite removelast_last.
+  rewrite (partition_app SP _ _ Hsp). cbn [negb orb].
+  destruct name as [|n0 name']; [contradiction|]. unfold mlsx_entry, mlsx_facts. rewrite removelast_last.
   destruct fs as [|kv fs]; [contradiction|]. cbn [map].
   rewrite split_on_join.
   2:{ apply (Forall_map fact_text (no 59) (kv :: fs)). eapply Forall_impl; [|exact Hok].
@@ -217,7 +218,7 @@ Theorem mlsx_line_exact dec b fs name eol :
   parse_mlsx_line dec b = Ok (posix_norm name, facts_dict fs).
 Proof.
   intros Hd Hne Hok Hn Hr He. unfold parse_mlsx_line. rewrite Hd. cbn [of_opt bind].
-  rewrite mlsx_text_exact by assumption. reflexivity.
+  apply mlsx_text_exact; assumption.
 Qed.
 
 (* ---- int() of a run of ASCII digits ---- *)
@@ -371,27 +372,43 @@ Proof.
   rewrite Hscan. cbn [of_opt bind]. rewrite py_int_ascii_digits by assumption. reflexivity.
 Qed.
 
-(* ---- parse_directory_response: 257 "quoted path" text ---- *)
+(* ---- parse_directory_response: 257 "quoted path" text (repaired state machine) ---- *)
 (* quoting as RFC 959 prescribes: every double quote is doubled *)
 Definition dq_escape (d : text) : text := flat_map (fun c => if c =? 34 then [34; 34] else [c]) d.
-(* the paths on which the state machine is exact: a double quote is always followed by another
-   character that is not a double quote (two adjacent quotes, or a quote at the very end, are
-   mis-parsed by the `seq_quotes` counter: observed, see notes) *)
-Inductive dq_ok : text -> Prop :=
-| dq_nil : dq_ok []
-| dq_plain c d : c <> 34 -> dq_ok d -> dq_ok (c :: d)
-| dq_quote c d : c <> 34 -> dq_ok d -> dq_ok (34 :: c :: d).
 
-Lemma dir_loop_body d : dq_ok d -> forall rest acc,
-  dir_loop (dq_escape d ++ rest) true O acc = dir_loop rest true O (rev d ++ acc).
+Lemma odd_double k : Nat.odd (2 * k) = false.
 Proof.
-  induction 1 as [|c d Hc _ IH|c d Hc _ IH]; intros rest acc.
-  - reflexivity.
-  - apply Z.eqb_neq in Hc. cbn [dq_escape flat_map]. rewrite Hc. cbn [app dir_loop negb].
-    rewrite Hc. cbn [Nat.eqb]. fold (dq_escape d). rewrite IH. cbn [rev]. rewrite <- app_assoc. reflexivity.
-  - apply Z.eqb_neq in Hc. cbn [dq_escape flat_map]. rewrite Z.eqb_refl, Hc. cbn [app dir_loop negb].
-    rewrite Z.eqb_refl, Hc. cbn [Nat.eqb]. fold (dq_escape d). rewrite IH. cbn [rev].
-    rewrite <- !app_assoc. reflexivity.
+  induction k as [|k IH]; [reflexivity|].
+  replace (2 * S k)%nat with (S (S (2 * k))) by lia. exact IH.
+Qed.
+Lemma odd_S_double k : Nat.odd (S (2 * k)) = true.
+Proof.
+  induction k as [|k IH]; [reflexivity|].
+  replace (S (2 * S k))%nat with (S (S (S (2 * k)))) by lia. exact IH.
+Qed.
+
+Lemma repeat_snoc {A} (x : A) n : repeat x n ++ [x] = x :: repeat x n.
+Proof. induction n as [|n IH]; [reflexivity|]. cbn. rewrite IH. reflexivity. Qed.
+
+(* scanning the escaped path: the quotes still pending (2k of them seen) plus what is
+   accumulated always denote the path read so far *)
+Lemma dir_loop_body d : forall rest k acc,
+  exists k' acc',
+    dir_loop (dq_escape d ++ rest) true (2 * k) acc = dir_loop rest true (2 * k') acc'
+    /\ repeat 34 k' ++ acc' = rev d ++ repeat 34 k ++ acc.
+Proof.
+  induction d as [|c d IH]; intros rest k acc.
+  - exists k, acc. split; reflexivity.
+  - destruct (c =? 34) eqn:Ec.
+    + apply Z.eqb_eq in Ec. subst c. cbn [dq_escape flat_map]. rewrite Z.eqb_refl. cbn [app dir_loop negb].
+      rewrite Z.eqb_refl. fold (dq_escape d).
+      replace (S (S (2 * k))) with (2 * S k)%nat by lia.
+      destruct (IH rest (S k) acc) as [k' [acc' [H1 H2]]]. exists k', acc'. split; [exact H1|].
+      rewrite H2. cbn [rev repeat]. rewrite <- app_assoc. reflexivity.
+    + cbn [dq_escape flat_map]. rewrite Ec. cbn [app dir_loop negb]. rewrite Ec.
+      rewrite odd_double, Nat.div2_double. fold (dq_escape d).
+      destruct (IH rest O (c :: repeat 34 k ++ acc)) as [k' [acc' [H1 H2]]].
+      exists k', acc'. split; [exact H1|]. rewrite H2. cbn [rev repeat app]. rewrite <- app_assoc. reflexivity.
 Qed.
 
 Lemma dir_loop_pre pre rest : no 34 pre ->
@@ -403,16 +420,21 @@ Proof.
     apply IH. exact Hp.
 Qed.
 
+(* EVERY path d (also one that ends in a double quote or contains several in a row: the F08
+   repair) is recovered exactly from its RFC 959 quoting *)
 Theorem directory_exact pre d post :
-  no 34 pre -> dq_ok d -> (forall r, post <> 34 :: r) ->
+  no 34 pre -> (forall r, post <> 34 :: r) ->
   parse_directory_response (pre ++ 34 :: dq_escape d ++ 34 :: post) = posix_norm d.
 Proof.
-  intros Hpre Hd Hpost. unfold parse_directory_response. f_equal.
-  rewrite dir_loop_pre by exact Hpre. rewrite dir_loop_body by exact Hd.
-  rewrite app_nil_r. cbn [dir_loop negb]. rewrite Z.eqb_refl.
-  destruct post as [|x r]; [cbn; apply rev_involutive|].
-  assert (Hx : (x =? 34) = false) by (apply Z.eqb_neq; intro; subst; apply (Hpost r); reflexivity).
-  cbn [dir_loop negb]. rewrite Hx. cbn [Nat.eqb]. apply rev_involutive.
+  intros Hpre Hpost. unfold parse_directory_response. f_equal.
+  rewrite dir_loop_pre by exact Hpre.
+  destruct (dir_loop_body d (34 :: post) O []) as [k' [acc' [H1 H2]]].
+  change (2 * 0)%nat with O in H1. rewrite H1. cbn [dir_loop negb]. rewrite Z.eqb_refl.
+  cbn [repeat app] in H2. rewrite app_nil_r in H2.
+  destruct post as [|x r].
+  - cbn [dir_loop]. rewrite Nat.div2_succ_double, H2. apply rev_involutive.
+  - assert (Hx : (x =? 34) = false) by (apply Z.eqb_neq; intro; subst; apply (Hpost r); reflexivity).
+    cbn [dir_loop negb]. rewrite Hx, odd_S_double, Nat.div2_succ_double, H2. apply rev_involutive.
 Qed.
 
 (* ---- small list facts ---- *)
@@ -565,6 +587,7 @@ Section UnixExact.
     { unfold strip. change (SP :: name) with ([SP] ++ name). rewrite rstrip_app_nonempty by assumption.
       cbn [app lstrip]. change (is_space SP) with (is_space 32); rewrite is_space_SP. apply lstrip_headns. exact Hn2. }
     rewrite E.
+    destruct name as [|n0 name']; [contradiction|]. cbn [is_nil negb guard bind].
     assert (T : text_eqb (ty_of t) t_link = false).
     { unfold ty_of. destruct (t =? 45); [reflexivity|]. destruct (t =? 100); [reflexivity|].
       apply Z.eqb_neq in Hnotlink. rewrite Hnotlink. reflexivity. }
@@ -693,7 +716,8 @@ Section WindowsExact.
     replace (starts_with DIRTAG (DIRTAG ++ SP :: repeat SP gap2 ++ name)) with true by reflexivity.
     cbn [bind]. rewrite skipn_len_app.
     change (SP :: repeat SP gap2 ++ name) with (repeat SP (S gap2) ++ name).
-    rewrite lstrip_spaces by exact Hn2. rewrite Hnodot. reflexivity.
+    rewrite lstrip_spaces by exact Hn2. rewrite Hnodot.
+    destruct name as [|n0 name']; [contradiction|]. reflexivity.
   Qed.
 
   (* files: the size column is ASCII digits with optional thousands separators *)
@@ -713,7 +737,8 @@ Section WindowsExact.
     rewrite Hsw. rewrite firstn_len_app. rewrite all_ascii_digit_isdigit by assumption.
     cbn [guard bind]. rewrite skipn_len_app.
     change (SP :: repeat SP gap2 ++ name) with (repeat SP (S gap2) ++ name).
-    rewrite lstrip_spaces by exact Hn2. rewrite Hnodot. reflexivity.
+    rewrite lstrip_spaces by exact Hn2. rewrite Hnodot.
+    destruct name as [|n0 name']; [contradiction|]. reflexivity.
   Qed.
 End WindowsExact.
 
@@ -753,15 +778,11 @@ Proof.
   repeat constructor; try discriminate; vm_compute; discriminate.
 Qed.
 
-(* 257 <dq>/a<dq><dq>b<dq> created  ->  /a<dq>b   (dq = the double quote character) *)
+(* 257 <dq>/a<dq><dq><dq><dq>b<dq><dq><dq> c  ->  /a<dq><dq>b<dq>   (dq = the double quote character) *)
 Example directory_exact_example :
-  parse_directory_response ([50; 53; 55; 32] ++ 34 :: dq_escape [47; 97; 34; 98] ++ 34 :: [32; 99])
-  = [47; 97; 34; 98].
-Proof.
-  rewrite directory_exact; [reflexivity|reflexivity| |intros r; discriminate].
-  apply dq_plain; [discriminate|]. apply dq_plain; [discriminate|].
-  apply dq_quote; [discriminate|]. apply dq_nil.
-Qed.
+  parse_directory_response ([50; 53; 55; 32] ++ 34 :: dq_escape [47; 97; 34; 34; 98; 34] ++ 34 :: [32; 99])
+  = [47; 97; 34; 34; 98; 34].
+Proof. rewrite directory_exact; [reflexivity|reflexivity|intros r; discriminate]. Qed.
 
 (* drwxr-xr-x 2 o g 4096 Nov 18 12:29 sub CRLF *)
 Example unix_line_exact_example :
